@@ -43,3 +43,9 @@ add("C17", "property-based testing: generated certificates and OpenSSL-accepted 
 add("C06", "property-based testing and mutation fuzzing with an in-check oracle: rcgen-generated, OpenSSL-signed foreign and mutated CSRs; acceptance implies OpenSSL verifies the signature over the exact CRI bytes under the key rcgen reports; issued certificate binds the request's SPKI bytes",
     "Generated-input search over three sources of byte strings (generated, foreign incl. cross key/hash pairings, 16..48 structured mutations each) against a soundness oracle evaluated by OpenSSL and a binding oracle evaluated by the harness decoder; thorough adds a coverage-guided libFuzzer campaign with the same oracle.",
     DEC + " and encoder; OpenSSL EVP verification and X509_REQ parsing as gatekeeper for forged inputs.", "DESIGN.md §4 C06")
+add("C11", "exhaustive enumeration + property-based testing: fixture keys x encodings x 9 loading entry points x requested algorithms (matching and mismatching); rcgen-generated keys saved and reloaded; OpenSSL as reference for SPKI bytes and signature verification",
+    "The (key, encoding, entry point, requested algorithm) matrix over all fixture keys is enumerated completely under both back ends; freshly generated keys are sampled; identity is judged against OpenSSL's SPKI encoding and verifier; algorithm statics are compared pairwise exhaustively.",
+    "OpenSSL key parsing, SPKI encoding and EVP verification; " + DEC + ".", "DESIGN.md §4 C11")
+add("C12", "property-based testing with metamorphic pairs and differential validators: a generated chain that satisfies every constraint must be accepted, the same chain with exactly one dimension violated must be rejected, by OpenSSL and by webpki where its semantics cover the dimension",
+    "Metamorphic pairs (baseline vs single violation) over generated chains of depth 2..4; the accept/reject verdict of two independent validators is the oracle, which ties every rejection to the one dimension that changed.",
+    "OpenSSL X509_verify_cert (default flags, explicit time and purpose) and webpki verify_for_usage; each is asked only about dimensions its documented semantics cover.", "DESIGN.md §4 C12")
